@@ -861,7 +861,13 @@ def _resolve(selector, env, cnt):
             # If fn is a method, we add a capture for "self" that must
             # match the instance.
             real_fn = _dig(fn.__func__)
-            selfname = inspect.getfullargspec(real_fn).args[0]
+            argnames = inspect.getfullargspec(real_fn).args
+            if not argnames:
+                raise SelectorError(
+                    f"Cannot select the method {fn} of a particular object:"
+                    " it has no named parameter for the object"
+                )
+            selfname = argnames[0]
             el = el.clone(name=real_fn)
             captures.append(
                 Element(
